@@ -310,6 +310,7 @@ RULE = (
     "high-accuracy CLARABEL pass-through (2e-2 for the SCS bisection of the excitation model). Any exception is a violation. "
     "Non-trivial = padded last batch, batch larger than the sample count, dividing batch > 1, or a row operation."
     " Both entry points (functions and ReceptorEstimator, which passes scalar K / baseline as one-element arrays); duplicated rows carry other per-sample weights; the last row of every call is compared with the same row fitted alone."
+    " A sixth of the generated rows are dark (exactly the baseline); a third of the generated systems have positive lower bounds."
 )
 
 PROP = Prop(
